@@ -533,7 +533,10 @@ func (g pairGen) emit(attr string, short, long map[string]any) {
 	// as a second YAML document of the same file
 	if !g.xkeys && g.ctx.Rng.Intn(2) == 0 {
 		if other := g.otherDoc(attr, long); other != nil {
-			mode := []string{"file-after", "doc-after", "file-after", "doc-after", "file-before", "doc-before"}[g.ctx.Rng.Intn(6)]
+			mode := []string{"file-after", "doc-after", "file-after", "doc-after", "file-before", "doc-before", "extends"}[g.ctx.Rng.Intn(7)]
+			if mode == "extends" && (attr == "extends" || strings.HasSuffix(attr, "s.labels")) {
+				mode = "file-after"
+			}
 			g.ctx.Count("pair-merged:" + mode + ":" + attr)
 			g.ctx.Add("c03.shortLong", pairArgs{Attr: attr, Short: short, Long: long, Files: envFiles, Other: other, Mode: mode})
 		}
